@@ -2,8 +2,8 @@ SPECIFICATION MCSpec
 CONSTANTS
   ARD = 6
   MaxA = 3
-  MaxB = 3
-  MaxBlocks = 6
+  MaxB = 2
+  MaxBlocks = 5
   UseRoles = {1, 4}
   MinH2 = 3
   MinH3 = 2
@@ -11,7 +11,7 @@ CONSTANTS
   MaxExplored = 1
   MaxDup = 1
   MaxRestarts = 1
-  Intermediate = TRUE
+  Intermediate = FALSE
 INVARIANT EnvConsistent
 INVARIANT IdleIsSynced
 INVARIANT EmitScripts
